@@ -66,6 +66,24 @@ SPECS = {
                      "rejected call followed by state comparison (PartialEq on every part of the member state; secret trees up to "
                      "observational equivalence of every (leaf, key type, generation<=6) key) and the follow-up oracle (genuine message "
                      "accepted, then the member sends and a peer accepts); distinct = distinct (kind, class, error kind) cells"),
+    "C11": dict(shards=(8, 32), level="exploration",
+                floors={"quick": {"winner_orders_resolved": 300, "stale_commit_refused": 2000, "stale_detached_refused": 150,
+                                  "second_build_refused": 150, "read_with_pending_ok": 300, "agreement_checked": 1000,
+                                  "built_pending_next_to_detached": 30}},
+                show=("histories", "built_", "winner_orders", "stale_", "second_build", "read_with", "agreement", "apply_without"),
+                rule="racing rounds of 1-3 members building pending and detached commits in the same epoch; every choice of winner is "
+                     "resolved on clones (winner applies directly, by echo or detached; losers clear or just receive; stale commits and stale "
+                     "detached secrets are offered afterwards) and compared with a per-member reference model (pending none/some, epoch); one "
+                     "evaluation = one model prediction compared; distinct = distinct (operation, role, pending/detached, mode) cells"),
+    "C14": dict(shards=(8, 32), level="exploration", valgrind=True,
+                floors={"quick": {"op:x509_validate_chain": 250, "op:hpke_open": 1200, "op:kdf_expand": 400, "op:verify": 300,
+                                  "memcheck_clean_runs": 1}},
+                show=("op:", "skipped:", "memcheck"),
+                rule="differential comparison over every provider pair x common suite: byte equality of deterministic primitives, "
+                     "producer x consumer interop of sign/verify and HPKE (base, PSK, setup/export), identical accept/reject on 111 malformed-"
+                     "input classes, and X.509 chains minted with the openssl crate (21 variants x 6 times) judged against the verdict known "
+                     "by construction; one evaluation = one pairwise comparison; distinct = distinct (operation, suite, pair, input class); "
+                     "plus one valgrind memcheck run of a reduced OpenSSL + AWS-LC workload"),
     "C12": dict(shards=(8, 32), level="exploration",
                 floors={"quick": {"nontrivial": 100000, "targeted_nonminimal": 5000, "arbitrary_decodes": 20000}},
                 show=("histories", "nontrivial", "trivial", "targeted_", "arbitrary_"),
@@ -223,6 +241,31 @@ def check(prop, tier, seed, replay=None):
         for s in psamples:
             if len(samples) < 6:
                 samples.append(s)
+    if spec.get("valgrind") and not replay:
+        vout = os.path.join(WORK, f"{prop}.memcheck.json")
+        vlog = os.path.join(WORK, f"{prop}.memcheck.log")
+        cmd = ["valgrind", "--error-exitcode=9", "--tool=memcheck", "--log-file=" + vlog, BIN, prop, "--tier", "quick",
+               "--seed", str(seed), "--shard", "0", "--nshards", "1", "--out", vout, "--memcheck"]
+        try:
+            vp = subprocess.run(cmd, cwd=HARNESS, env=ENV, stdout=subprocess.PIPE, stderr=subprocess.PIPE, text=True, timeout=900)
+            log = open(vlog).read() if os.path.exists(vlog) else ""
+            if vp.returncode == 9:
+                viol.append(dict(prop=prop, sig=f"{prop}|memcheck|invalid_memory_access_in_provider_ffi", detail=log[-3000:], shard=0))
+            elif vp.returncode != 0:
+                inconcl.append(f"valgrind run failed rc={vp.returncode}: {vp.stderr[-300:]}")
+            else:
+                counters["memcheck_clean_runs"] = 1
+                summary = [l for l in log.splitlines() if "ERROR SUMMARY" in l]
+                counters["memcheck_error_summary_zero"] = int(bool(summary and " 0 errors" in summary[-1]))
+                if os.path.exists(vout):
+                    with open(vout) as f:
+                        vd = json.load(f)
+                    counters["memcheck_provider_calls"] = vd.get("counters", {}).get("provider_calls", 0)
+                    evaluations += vd.get("evaluations", 0)
+        except subprocess.TimeoutExpired:
+            inconcl.append("valgrind run timed out")
+        except FileNotFoundError:
+            inconcl.append("valgrind not found")
     known = load_known()
     new_viol, known_seen = [], {}
     for v in viol:
